@@ -94,7 +94,7 @@ prop(
 prop(
     "C06",
     level="exploration",
-    technique="guard monitor (independent recomputation of the liquidation ratio incl. oracle override) + payout oracle over the transaction's transfer log",
+    technique="guard monitor (independent recomputation of the liquidation ratio incl. oracle override, TWAP notional from the monitor's own reserve timeline) + payout oracle over the transaction's transfer log + per-operation bookkeeping ledger as auxiliary oracle",
     design_ref="DESIGN.md §4 C06",
     rule="evaluations = Liquidate calls that succeeded or were refused by the margin guard. R0 engine MarginRatio query vs recomputation (+-1); R1 success only if the recomputed ratio <= maintenance; "
          "the recomputation uses the stored position, the monitor's own funding checkpoints and cumulative fraction, the vAMM's spot quote and the 15-minute TWAP notional, which is cross-checked against (and on disagreement replaced by) the value computed from the monitor's own end-of-block reserve timeline; "
@@ -132,7 +132,7 @@ prop(
 prop(
     "C12",
     level="exploration",
-    technique="transfer-log oracle: exact list of fee transfers per successful operation recomputed from notional and stored ratios",
+    technique="transfer-log oracle: exact list of fee transfers per successful operation recomputed from notional and stored ratios; per-operation bookkeeping ledger as auxiliary oracle for the stored open notional",
     design_ref="DESIGN.md §4 C12",
     rule="evaluations = successful Open/Close(whole)/Deposit/Withdraw/PayFunding/Liquidate calls. Ratios: the monitor's own record of what each vAMM was given (instantiate message, accepted UpdateConfig fields), never the vAMM's report about itself; R0 a vAMM reporting ratios other than those it was instantiated with. Open: exactly one transfer floor(N*spread/D) to the insurance fund and one floor(N*toll/D) to the fee pool (none when 0), N=floor(margin*leverage/D), payer = trader (cw20) or engine out of attached funds (native), on increase, reduce and both reversal outcomes; "
          "Auxiliary oracle (rules prefixed ledger:): the per-operation ledger of C11 runs alongside, because the fee of a close is charged on the stored open notional, which an earlier partial close may have booked wrongly. "
